@@ -66,6 +66,27 @@ def gradient(M, M0inv, vab, vcd, w):
   return g
 
 
+ULPS_FLOOR = 64      # an early stop is accepted when no step along -g lowers the objective by more than this many ulps of its value
+
+
+def at_resolution_floor(M, g, M0inv, vab, vcd, w):
+  """"stationary to within tol" cannot be demanded below the resolution of the binary64 objective: when the best decrease that ANY step
+  along the negative gradient can achieve (fine line search, 400 step sizes over 14 decades, independent objective) is within a few ulps
+  of the objective value, the descent method has nothing left to measure.  (Needed for tol <= 1e-6 only.)"""
+  f0 = objective(M, M0inv, vab, vcd, w)
+  if not np.isfinite(f0):
+    return False
+  gn = np.linalg.norm(g)
+  best = 0.0
+  for t in np.logspace(-12, 2, 400) / max(gn, 1e-300):
+    Mn = M - t * g
+    ev = np.linalg.eigvalsh((Mn + Mn.T) / 2)
+    if ev.min() <= 0:
+      break
+    best = min(best, objective(Mn, M0inv, vab, vcd, w) - f0)
+  return -best <= ULPS_FLOOR * np.finfo(float).eps * max(abs(f0), 1.0)
+
+
 def fd_selftest(M, M0inv, vab, vcd, w, rng):
   """analytic gradient vs central differences of the objective along random symmetric directions -> max relative error"""
   g = gradient(M, M0inv, vab, vcd, w)
@@ -86,7 +107,7 @@ def fd_selftest(M, M0inv, vab, vcd, w, rng):
 def instances(tier, seed):
   rng = np.random.RandomState(seed)
   n = 32 if tier == 'quick' else 200
-  budgets = [(1000, 1e-3), (1, 1e-3), (5, 1e-3), (300, 1e-2), (1000, 1e-3), (50, 1e-5), (1000, 1e-2), (300, 1e-3)]
+  budgets = [(1000, 1e-3), (1, 1e-3), (5, 1e-3), (300, 1e-2), (20000, 1e-7), (50, 1e-5), (1000, 1e-2), (300, 1e-3), (20000, 1e-6)]   # tight tolerances included
   out = []
   for k in range(n):
     d = (2, 3, 1, 4, 5, 6, 3, 2)[k % 8]
@@ -291,7 +312,7 @@ def check_instance(ml, inst, stats=None):
   gn = float(np.linalg.norm(g))
   stats.update(gn=gn, n_iter=int(est.n_iter_), early=bool(est.n_iter_ < inst['max_iter']))
   if est.n_iter_ < inst['max_iter']:
-    if not gn <= K_STAT * inst['tol'] + 1e-9 * np.linalg.norm(np.linalg.inv(M)):
+    if not gn <= K_STAT * inst['tol'] + 1e-9 * np.linalg.norm(np.linalg.inv(M)) and not at_resolution_floor(M, g, M0inv, vab, vcd, w):
       out.append(bad(inst, 'early-stop-is-stationary',
                      'stopped at n_iter_=%d < max_iter=%d where the gradient of the documented (weighted) objective has norm %.4g (tol=%g)'
                      % (est.n_iter_, inst['max_iter'], gn, inst['tol']),
